@@ -452,6 +452,14 @@ func (fx *Fx) applyContract(st *State, ct *Contract, fn *ssa.Function, args []Va
 		fx.assume(st, g)
 	}
 	// arguments passed to a contract callee do not escape unless the contract says so (borrow)
+	if !ct.Trusted && (ct.NoFrame || (ct.Sweep && !ct.HasModifies)) {
+		// the callee's frame is not checked where it is defined: nothing may be assumed about what it writes
+		for _, a := range args {
+			st.markEscapes(a)
+		}
+		fx.havocAll(st)
+		fx.Havocked["frame:"+name] = true
+	}
 	for _, m := range ct.Modifies {
 		fx.havocLoc(st, m, env)
 	}
